@@ -87,6 +87,10 @@ MUTANTS_C18 = [
     dict(id="c18-lower-bound-builtin-less", prop="C18", file=AI,
          old="        if (comp(*m, value_))\n        {\n            first = ++m;",
          new="        if (*m < value_)\n        {\n            first = ++m;", expect="ANALYSIS"),
+    # behaviour-preserving, but std::swap has no interpreted body: exit 2, never a pass
+    dict(id="c18-std-swap-outside-vocabulary", prop="C18", file=AI,
+         old="        trivial_swap(*first, *last);\n        ++first;",
+         new="        std::swap(*first, *last);\n        ++first;", expect="ANALYSIS"),
     # ------------------------------------------------------------------ benign / equivalent
     dict(id="benign-c18-rename-local", prop="C18", benign=True,
          edits=[(AI, "half_len", "hl", "all")]),
@@ -139,8 +143,16 @@ MUTANTS_C18 = [
          old="        if (comp(*i, *first))\n        {\n            trivial_swap(*i, *first);",
          new="        if (comp(*first, *i))\n        {\n            trivial_swap(*i, *first);",
          expect="C18.2-sort"),
-    dict(id="c18-siftdown-left-child-only", prop="C18", file=AI,
+    dict(id="c18-siftdown-picks-smaller-child", prop="C18", file=AI,
          old="        if ((child + 1) < len\n            && comp(*child_i, *(child_i + difference_type(1))))",
-         new="        if ((child + 2) < len\n            && comp(*child_i, *(child_i + difference_type(1))))",
+         new="        if ((child + 1) < len\n            && comp(*(child_i + difference_type(1)), *child_i))",
          expect="C18.2-sort"),
+    # Looks like a bug (the last right child is ignored inside the sift loop) but is an
+    # equivalent mutant for sort(): the only heap violation it can leave is at the last
+    # position, which is the next element swapped to the root and re-sifted, and in make_heap
+    # that element stays below its former ancestors.  A plain-Python re-implementation sorts
+    # every sequence of length <= 8 correctly; the check is silent, as it must be.
+    dict(id="benign-c18-siftdown-ignores-last-right-child", prop="C18", benign=True, file=AI,
+         old="        if ((child + 1) < len\n            && comp(*child_i, *(child_i + difference_type(1))))",
+         new="        if ((child + 2) < len\n            && comp(*child_i, *(child_i + difference_type(1))))"),
 ]
